@@ -321,7 +321,7 @@ fn dial(mut case: Case, delta: i32) -> Case {
     case
 }
 
-fn case_strategy() -> impl Strategy<Value = Case> {
+pub fn case_strategy() -> impl Strategy<Value = Case> {
     (
         any::<bool>(),
         prop::collection::vec(reply_strategy(), 2..=6),
